@@ -3,7 +3,7 @@ Judge main loop.  Input: one line per operation, `<op> <args…> => <harness out
 Output: one line per input line: `ok`, `skip <why>` or `FAIL <explanation>`.
 A first line `cfg => asm 64 …` (the harness's own report) sets the word size.
 -/
-import JediVerif.Driver.Judge3
+import JediVerif.Driver.Judge6
 
 namespace Jedi.Driver
 
@@ -44,7 +44,16 @@ def judgeLine (cfg : Cfg) (op : String) (args out : List String) : Except String
       pure false
   run.run' args
 
-partial def loop (h : IO.FS.Stream) (cfg : Cfg) : IO Unit := do
+/-- stateful operations (object table) -/
+def judgeStateful (st : St) (op : String) (args out : List String) : Except String Bool × St :=
+  let run : PS Bool := do
+    if ← judgeScheme op out then return true
+    if ← judgeScheme2 op out then return true
+    pure false
+  let (r, st') := ((run.run args).run).run st
+  (r.map (·.1), st')
+
+partial def loop (h : IO.FS.Stream) (st : St) : IO Unit := do
   let line ← h.getLine
   if line.isEmpty then return ()
   let line := line.trimAscii.toString
@@ -53,22 +62,27 @@ partial def loop (h : IO.FS.Stream) (cfg : Cfg) : IO Unit := do
     let l := tokens lhs
     let out := tokens rhs
     match l with
-    | [] => IO.println "skip empty"; loop h cfg
+    | [] => IO.println "skip empty"; loop h st
     | op :: args =>
       if op == "cfg" then
         let wb := if out.getD 1 "64" == "32" then 32 else 64
         IO.println "ok"
-        loop h { wordBits := wb, asm := out.getD 0 "asm" == "asm" }
+        loop h { st with cfg := { wordBits := wb, asm := out.getD 0 "asm" == "asm" } }
       else if out.head? == some "UNSUPPORTED" then
-        IO.println "skip unsupported-by-harness"; loop h cfg
+        IO.println "skip unsupported-by-harness"; loop h st
+      else if op.startsWith "wk_" || op.startsWith "lq_" then
+        match judgeStateful st op args out with
+        | (.ok true, st') => IO.println "ok"; loop h st'
+        | (.ok false, st') => IO.println s!"skip no-judge-for {op}"; loop h st'
+        | (.error e, st') => IO.println s!"FAIL {e}"; loop h st'
       else
-        match judgeLine cfg op args out with
+        match judgeLine st.cfg op args out with
         | .ok true => IO.println "ok"
         | .ok false => IO.println s!"skip no-judge-for {op}"
         | .error e => IO.println s!"FAIL {e}"
-        loop h cfg
+        loop h st
   | _ =>
     if line.startsWith "#" then IO.println "skip comment" else IO.println "FAIL malformed line"
-    loop h cfg
+    loop h st
 
 end Jedi.Driver
